@@ -815,6 +815,8 @@ def generate(seed):
             plan['errno'] = f.choice(['ENOSPC', 'EIO'])
             plan['error_part'] = f.choice([0.0, 0.0, f.random()])
         wp['plan'] = plan
+        wp['bufsize'] = f.choice([16, 64, 64, 256])   # many raw writes, so that the planned fault actually fires
+        wp['write_through'] = f.random() < 0.5
         if f.random() < 0.3 and fmt != 'mrv':
             trace['append'] = [gen_record_spec(w, cfg, FORMATS[fmt]['rxn']) for _ in range(f.choice([1, 2, 3]))]
     elif mode == 'damage':
